@@ -254,6 +254,7 @@ func c33(r *core.Run) {
 		}
 	}
 	r.Floor("C33.Lk1", "writes of the four per-peer totals", total, 5)
+	c33PayAtomic(r, la, mu)
 	r.Eval(total)
 
 	// Lk2: persist inside the critical section
